@@ -124,7 +124,9 @@ class Method(Variable):  # i.e. TypeBound procedure
                 self.link_obj = link_obj
                 if self.pass_name is not None:
                     self.pass_name = self.pass_name.lower()
-                    for i, arg in enumerate(link_obj.args_snip.split(",")):
+                    # Only procedures have arguments, the name may belong to a variable
+                    args_snip = getattr(link_obj, "args_snip", None) or ""
+                    for i, arg in enumerate(args_snip.split(",")):
                         if arg.lower() == self.pass_name:
                             self.drop_arg = i
                             break
